@@ -6,7 +6,7 @@ def run(ctx):
     ctx.clause = ("the ABIXML writer and reader agree on element / attribute names, on every enum<->string table, and "
                   "on which element kinds may omit their size; a hash-style type id is registered as used before it is "
                   "handed out (two types never share an id)")
-    ctx.rules = ["R-VOCAB", "R-ENUMTAB", "R-DEFSZ", "R-IDUNIQ", "R-QNREFRESH"]
+    ctx.rules = ["R-VOCAB", "R-ENUMTAB", "R-DEFSZ", "R-IDUNIQ", "R-QNREFRESH", "R-REFSETS"]
     P = ctx.program(vr.UNITS)
     vr.check_vocab(ctx, P)
     vr.check_enumtab(ctx, P)
@@ -15,5 +15,63 @@ def run(ctx):
     C40.check_iduniq(ctx, ctx.program(C40.UNITS))
     from rules import qnrefresh_rule
     qnrefresh_rule.check(ctx, ctx.program(qnrefresh_rule.UNITS))
+    check_refsets(ctx)
     ctx.assume("that attribute *values* (sizes, offsets, ids) are computed and re-interpreted consistently is runtime "
                "behaviour and is not decided")
+
+
+
+def check_refsets(ctx):
+    """R-REFSETS: a type id written as a reference (type-id='..') must have its definition in the document.  The writer
+    records referenced types in member sets (write_context::record_type_as_referenced chooses one of them per type) and
+    write_referenced_types() emits what is still missing.  Agreement between the two ends: every set that
+    record_type_as_referenced can insert into is read - through its accessor - on every path of write_referenced_types
+    before the emission loop starts (a set that is only looked at inside the loop is never looked at when the other sets
+    happen to be empty).  Reading the document back then fails on the dangling id."""
+    from engine.facts import walk, call_args, member_call_object, expr_str
+    from engine.cfg import strip_casts
+    from engine.compdb import AnalysisBroken
+    from rules.idref_rule import _on_all_paths_before
+    P = ctx.program(["src/abg-writer.cc"])
+    rec = [f for f in P.all_funcs() if f.n == "record_type_as_referenced" and not f.dep and f.cfg() is not None]
+    if not rec:
+        raise AnalysisBroken("anchor vanished: write_context::record_type_as_referenced")
+    filled = set()
+    for f in rec:
+        for x in f.nodes():
+            if x["k"] == "CXXMemberCallExpr" and (f.decl(x) or {}).get("n") in ("insert", "emplace"):
+                o = strip_casts(member_call_object(x))
+                if o is not None and o["k"] == "MemberExpr" and (f.decl(o) or {}).get("k") == "Field":
+                    filled.add(f.decl(o)["n"])
+    if len(filled) < 2:
+        raise AnalysisBroken("anchor vanished: record_type_as_referenced no longer fills member sets (%s)" % sorted(filled))
+    # accessors: member functions of write_context whose body returns one of these members
+    acc = {}
+    for g in P.all_funcs():
+        if g.dep or not g.cls or not g.cls.endswith("write_context") or g.body is None:
+            continue
+        rets = [x for x in g.nodes() if x["k"] == "ReturnStmt" and x.get("c") and x["c"][0] is not None]
+        if len(rets) == 1:
+            r = strip_casts(rets[0]["c"][0])
+            if r is not None and r["k"] == "MemberExpr" and (g.decl(r) or {}).get("n") in filled:
+                acc.setdefault(g.decl(r)["n"], set()).add(g.n)
+    ws = [f for f in P.all_funcs() if f.n == "write_referenced_types" and not f.dep and f.cfg() is not None]
+    if len(ws) != 1:
+        raise AnalysisBroken("anchor vanished: xml_writer write_referenced_types")
+    w = ws[0]
+    ctx.analysed(w)
+    loops = [x for x in w.nodes() if x["k"] == "WhileStmt" and x["c"][0] is not None and "empty" in expr_str(w, x["c"][0])]
+    if not loops:
+        raise AnalysisBroken("anchor vanished: the emission loop of write_referenced_types")
+    loop = min(loops, key=lambda x: x.get("l", 0))
+    target = [y for y in walk(loop["c"][0]) if y["k"] == "CXXMemberCallExpr"]
+    target = target[0] if target else loop["c"][0]
+    for m in sorted(filled):
+        names = acc.get(m, set())
+        ok = bool(names) and _on_all_paths_before(w, target, lambda e: (e["k"] == "CXXMemberCallExpr" and (w.decl(e) or {}).get("n") in names) or
+                                                  (e["k"] == "MemberExpr" and (w.decl(e) or {}).get("n") == m))
+        ctx.ob("R-REFSETS", "write_referenced_types looks at %s before it starts emitting" % m, ok, w.loc(loop),
+               "%s() is read on every path to the loop" % "/".join(sorted(names)) if ok else
+               "record_type_as_referenced() files types into %s, but write_referenced_types reaches its emission loop without having read "
+               "%s: when the other sets are empty the loop never runs and a referenced type is left without definition" % (m, "/".join(sorted(names)) or m))
+    ctx.floor("R-REFSETS", "sets filled by record_type_as_referenced", len(filled), 3)
